@@ -76,8 +76,20 @@ fn collect_operands_<'a>(
             collect_operands_(rhs, op_sym, Some(&lhs.position), None, result);
         }
         Expression_::Parentheses(paren) => {
-            let paren_end = paren_end.unwrap_or(&expr.position);
-            collect_operands_(&paren.expr, op_sym, delete_from, Some(paren_end), result);
+            let is_group = matches!(
+                &paren.expr.expr_,
+                Expression_::BinaryOperator(_, op, _) if op == op_sym
+            );
+            if is_group {
+                // The first operand of a parenthesised group can't be
+                // deleted from the end of its left sibling, because
+                // that would take the group's opening parenthesis
+                // with it.
+                collect_operands_(&paren.expr, op_sym, None, None, result);
+            } else {
+                let paren_end = paren_end.unwrap_or(&expr.position);
+                collect_operands_(&paren.expr, op_sym, delete_from, Some(paren_end), result);
+            }
         }
         _ => {
             result.push(Operand {
